@@ -1,6 +1,13 @@
 #!/bin/sh
-# Build the simulation engines from files on disk only (offline).
+# Build the simulation engines from files on disk only (offline), then prove that the
+# simulator is deterministic on a sample (same seed => same event logs, 1 vs 16 workers).
 set -e
-cd /verif/sim
 export CARGO_NET_OFFLINE=true
-cargo build --release --offline -p essim 2>&1 | tail -3
+cd /verif/sim
+cargo build --release --offline -p essim 2>&1 | tail -2
+# E2: Miri sysroot + dependencies of the untouched crates
+cd /verif/miri-real
+cargo +nightly miri setup 2>&1 | tail -1 || true
+MIRIFLAGS="-Zmiri-many-seeds=0..1" cargo +nightly miri run --offline -- lock 1 2>&1 | tail -1 || true
+cd /verif
+./tools/selftest.sh
